@@ -553,6 +553,9 @@ pub fn run(prop: &str, tier: &str, seed: u64) -> Report {
     }
     total.merge(rr);
     total.merge(rr2);
+    // ONE GenericBuilder, several builds, claims set / removed / extended and footer / assertion changed in between: every
+    // token must come back as exactly the claims in force at its build (the histories of C14, here as round trips)
+    total.merge(crate::c14::multi_round_trips(prop, protos, if tier == "thorough" { 3000 } else { 240 }, seed, &pools));
     for &p in protos {
         total.require(&format!("{} core builder history: token opens to the payload/footer/assertion current at its seal", p.name()), 20);
         total.require(&format!("{} core builder reused: token #2 opens to the message", p.name()), 10);
